@@ -444,7 +444,19 @@ def check(model, rep, tier):
   rets = [r for r in ast.walk(fn) if isinstance(r, ast.Return)]
   insts = [c for c in ast.walk(fn) if isinstance(c, ast.Call) and isinstance(
       c.func, ast.Attribute) and c.func.attr == 'instantiate']
-  kw = {k.arg: tpl.xnorm(tf, k.value, c) for c in insts for k in c.keywords}
+  # arguments by the parameter they bind (keyword or position)
+  from sa import inline as _inl
+  inst_fn = model.func(TR, '_PythonFnFactory.instantiate')
+  kw = {}
+  for c in insts:
+    bound_ = _inl._bind(inst_fn.node, c, True)
+    if bound_ is None:
+      kw = None
+      break
+    for k_, v_ in bound_.items():
+      if any(v_ is a_ for a_ in c.args) or any(v_ is k2.value for k2 in c.keywords):
+        kw[k_] = tpl.xnorm(tf, v_, c)
+  kw = kw or {}
   want = {'globals_': pname + '.__globals__', 'closure': pname + '.__closure__ or ()',
           'defaults': pname + '.__defaults__',
           'kwdefaults': "getattr(%s, '__kwdefaults__', None)" % pname}
@@ -472,9 +484,21 @@ def check(model, rep, tier):
            '_ALLOWLIST_CACHE[%s][%s]' % tuple(ca.params()) for n in ast.walk(ca.node))
   rep.check(ok, 'CACHE-ALLOWLIST', '%s:store' % ca.site,
             'failures are remembered per (entity, options)', line=ca.node.lineno)
-  ok = any(isinstance(r, ast.Return) and r.value is not None and
-           tpl.xnorm(ia, r.value, r) == '_ALLOWLIST_CACHE.has(%s, %s)' % tuple(ia.params())
-           for r in ast.walk(ia.node))
+  # the answer is _ALLOWLIST_CACHE.has(entity, options) -- returned directly or
+  # through a local -- or False (the TypeError handler)
+  want_has = '_ALLOWLIST_CACHE.has(%s, %s)' % tuple(ia.params())
+  rd_ia = tpl.rdefs(ia.node)
+
+  def answers(r):
+    v = r.value
+    if v is None:
+      return []
+    if isinstance(v, ast.Name):
+      ds = rd_ia.reaching(v, v.id) or []
+      return [core.norm(d) if isinstance(d, ast.AST) else '?' for d in ds]
+    return [core.norm(v)]
+  all_answers = [a for r in ast.walk(ia.node) if isinstance(r, ast.Return) for a in answers(r)]
+  ok = want_has in all_answers and all(a in (want_has, 'False') for a in all_answers)
   rep.check(ok, 'CACHE-ALLOWLIST', '%s:lookup' % ia.site,
             'lookups use the same (entity, options) pair', line=ia.node.lineno)
   ub = model.func(CACHE, 'UnboundInstanceCache._get_key')
